@@ -18,7 +18,7 @@
                                                   flattened by collect_minimum_serialized_edges
      function.rs:collect_minimum_serialized_edges flattening of a non-persisted dependency into the
      input/input_field.rs: same name              leaves that cover it (visited set, "already
-                                                  serialized" skip, memo-less dependency skipped)
+                                                  serialized" skip, memo-less dependency kept as an edge)
      function/memo.rs (mod persistence)           MappedMemo / with_origin: value, verified_at,
                                                   revisions with the flattened origin
      function.rs:flattened_untracked_dependency   (fix e43c20c) a Derived memo whose flattening expanded
@@ -439,7 +439,8 @@ Definition mem_edge (e : edge) (l : list edge) : bool := existsb (edge_eqb e) l.
 
 (* collect_minimum_serialized_edges of a dependency that is not serialised directly.
    acc = (serialized_edges : FxIndexSet, visited_edges : FxHashSet).
-   input field: the leaf is inserted.  function: no memo -> nothing; otherwise mark visited and
+   input field: the leaf is inserted.  function: no memo -> the edge itself is inserted (nothing
+   covers it; fix of the memo-less-dependency stale value); otherwise mark visited and
    recurse into every edge that is neither visited nor already serialised (NO persistability
    test at this level).  [fuel] bounds the depth. *)
 Fixpoint collect (mm : qkey -> option memo) (fuel : nat) (e : edge) (acc : list edge * list edge)
@@ -451,7 +452,7 @@ Fixpoint collect (mm : qkey -> option memo) (fuel : nat) (e : edge) (acc : list 
       | EIn _ => (add_edge (fst acc) e, snd acc)
       | EQ g =>
           match mm g with
-          | None => acc
+          | None => (add_edge (fst acc) e, snd acc)
           | Some m =>
               fold_left (fun acc e2 =>
                            if mem_edge e2 (snd acc) then acc
